@@ -1,3 +1,124 @@
+/-
+C10 — "The formatter preserves meaning and comments and is idempotent."
+
+What is proved here is the part of the statement that rests on *comment recovery*: the
+formatter does not keep comments in the AST, it re-reads them from the source text between two
+spans with `CommentIter` (base/src/source.rs), forwards (`comments_between(span)`) and
+backwards (`.rev()`).  Model: `GluonModel.Comments` (transcription of `next` / `next_back`,
+every slice and subtraction checked).  Lemmas: `GluonModel.Proofs.Comments`.
+
+The document construction of format/src/pretty_print.rs (which gaps are looked at at all, the
+`pretty` layout algorithm, idempotence, AST preservation) is NOT modelled; it is covered only by
+the oracle in harness/src/bin/c10.rs, which finds many violations there (see notes/C10.md).
+-/
 import GluonModel.Comments
+import GluonModel.Proofs.Comments
+
 namespace GluonModel.Props.C10
+open GluonModel.Comments
+open GluonModel.Proofs.Comments (AllWs Recon ReconBack nonWs)
+
+/-- `CommentIter::next` never panics: no slice index is out of range and the `unwrap` on
+    `lines().next()` cannot fire — for every remaining text. -/
+theorem next_never_panics (src : List Char) : next src ≠ .panic :=
+  Proofs.Comments.next_no_panic src
+
+/-- `CommentIter::next_back` never panics (after fix 9c4447b): `len - newline_len` and
+    `len - trimmed.len()` cannot underflow and the cut is on a char boundary. -/
+theorem nextBack_never_panics (src : List Char) : nextBack src ≠ .panic :=
+  Proofs.Comments.nextBack_no_panic src
+
+/-- Every `Some` consumes at least one character, so iteration terminates. -/
+theorem next_consumes (src it r : List Char) (h : next src = .yield it r) :
+    r.length < src.length :=
+  Proofs.Comments.next_shrinks h
+
+theorem nextBack_consumes (src it r : List Char) (h : nextBack src = .yield it r) :
+    r.length < src.length :=
+  Proofs.Comments.nextBack_shrinks h
+
+/-- `comments_preserved` (forward): draining `comments_between(span)` always finishes without a
+    panic, and the text it was given is exactly
+    `ws ++ item₁ ++ ws ++ item₂ ++ … ++ ws ++ rest ++ ws`
+    where every `ws` is whitespace only and `rest` is where the iterator stopped: nothing but
+    whitespace is skipped, the items are contiguous pieces of the source in source order. -/
+theorem forward_total_and_preserves (s : List Char) :
+    ∃ items rest, forward s = .done items rest ∧ Recon s items rest :=
+  Proofs.Comments.drain_next (s.length + 1) s (Nat.lt_succ_self _)
+
+/-- The same for the reverse iterator, from the end of the text towards `rest`. -/
+theorem backward_total_and_preserves (s : List Char) :
+    ∃ items rest, backward s = .done items rest ∧ ReconBack s items rest :=
+  Proofs.Comments.drain_nextBack (s.length + 1) s (Nat.lt_succ_self _)
+
+/-- Corollary: the non-whitespace characters of the text are those of the yielded items followed
+    by those of the unconsumed rest, in order — no comment character is lost or invented. -/
+theorem forward_keeps_non_whitespace (s : List Char) (items : List (List Char)) (rest : List Char)
+    (h : forward s = .done items rest) : nonWs s = nonWs items.flatten ++ nonWs rest := by
+  obtain ⟨its, fin, h1, h2⟩ := forward_total_and_preserves s
+  rw [h1] at h
+  injection h with e1 e2
+  subst e1 e2
+  exact h2.nonWs
+
+theorem backward_keeps_non_whitespace (s : List Char) (items : List (List Char)) (rest : List Char)
+    (h : backward s = .done items rest) :
+    nonWs s = nonWs rest ++ nonWs items.reverse.flatten := by
+  obtain ⟨its, fin, h1, h2⟩ := backward_total_and_preserves s
+  rw [h1] at h
+  injection h with e1 e2
+  subst e1 e2
+  exact h2.nonWs
+
+/-
+`rev_is_reverse` (DESIGN.md §6 C10):  `backward gap = reverse (forward gap)` on gaps consisting
+of whitespace and comments.  This is FALSE for the code as it is (witnesses below: a leading
+blank line is yielded forwards but not backwards; a `//` comment that ends the text without a
+newline is yielded forwards but not backwards).  What holds in general is the weaker
+`rev_same_text_partial`: whenever both directions consume the whole gap they yield the same
+comment text in opposite orders (item boundaries and blank-line markers may differ).  Missing for
+the full statement: a characterisation of the gaps on which the item lists coincide; it is
+only checked by the correspondence (exhaustively for all strings up to length 4/6 over a
+7-letter alphabet, model = code) — see notes/C10.md.
+-/
+theorem rev_same_text_partial (s : List Char) (f b : List (List Char))
+    (hf : forward s = .done f []) (hb : backward s = .done b []) :
+    nonWs f.flatten = nonWs b.reverse.flatten := by
+  have h1 := forward_keeps_non_whitespace s f [] hf
+  have h2 := backward_keeps_non_whitespace s b [] hb
+  rw [h1] at h2
+  simpa [nonWs] using h2
+
+/-- The reverse iterator is not the reverse of the forward one, even on a gap made only of
+    whitespace and one comment line. -/
+theorem rev_is_reverse_fails :
+    ∃ s items items', forward s = .done items [] ∧ backward s = .done items' ['\n'] ∧
+      items'.reverse ≠ items :=
+  ⟨"\n// a\n".toList, [[], "// a".toList], ["// a".toList], by decide, by decide, by decide⟩
+
+/-- … and a `//` comment that ends the text without a newline is not seen backwards. -/
+theorem rev_misses_unterminated_line_comment_fails :
+    forward "// a".toList = .done ["// a".toList] [] ∧
+    backward "// a".toList = .done [] "// a".toList :=
+  ⟨by decide, by decide⟩
+
+/-! Non-vacuity: concrete gaps. -/
+
+-- the gap between `{` and the first field of a record, with a line and a block comment
+example : forward "  // a\n    /* b */\n\n    ".toList =
+    .done ["// a".toList, "/* b */".toList, [], []] [] := by decide
+-- the reverse direction on the text before a token (stops at the code `x =`)
+example : backward "x =\n    // a\n    // b\n\n    ".toList =
+    .done [[], "// b".toList, "// a".toList, []] "x =".toList := by decide
+-- both directions consume this gap completely (hypotheses of `rev_same_text_partial`)
+example : forward "// a\n/* b */\n".toList = .done ["// a".toList, "/* b */".toList, []] [] := by
+  decide
+example : backward "// a\n/* b */\n".toList = .done [[], "/* b */".toList, "// a".toList] [] := by
+  decide
+-- CRLF and a multi-byte indentation character (the byte-length cut of `next_back`)
+example : backward "　// é\r\n".toList = .done ["// é".toList] [] := by decide
+example : Recon "  // a\n x".toList ["// a".toList] "x".toList :=
+  ⟨"  ".toList, "\n ".toList, "x".toList, [], by decide, by decide, by decide, by decide,
+    [], [], by decide, by decide, by decide⟩
+
 end GluonModel.Props.C10
